@@ -347,7 +347,7 @@ ONEWAY_TRUST = COMMON_TRUST + [
 ]
 PROPS["C09"] = dict(
     level="proof",
-    units=[dict(template="units/oneway.rs", slice=["*"])],
+    units=[dict(template="units/oneway.rs", slice=["*"], ignore_clauses={"deliver_local": [r"\.mtime == clamp0"], "deliver_pull": [r"\.mtime == clamp0"]})],
     twins=[dict(name="oneway_crashes", repo_fn="src/bin/copia/transfer.rs transfer_file_to_remote (push) + incremental.rs run_local/run_remote", quick=3, thorough=120, needs_cli=True,
                 contract="`copia sync -r` in all three directions on the real binary, killed right before EVERY one of its file-system / pipe write calls (ptrace supervisor; the ssh stand-in keeps running after its sender died): live destination paths hold complete old or complete new bytes, files outside the plan are unchanged, the re-run exits 0 and equals an uninterrupted run; plus a remote end that fails mid-stream",
                 bounded="PUSH is decided only here: the deciding step is the remote shell command `cat > tmp && [ size ] && mv`, which is not Rust code and has no contract. Bound: ONE tree (5 files, 0 B .. 700 000 B = 3 transfer chunks, one pre-existing older version, one unrelated file), -j 1, every kill point of that run (quick: every point up to 40 then every 3rd; thorough: all), remote = local sh through an ssh stand-in")],
@@ -387,4 +387,31 @@ PROPS["C13"] = dict(
     not_decided=["sequences of runs by several clients: one run's contract plus the hub-side properties (C03, C10) give the statement by induction on runs - a paper argument; the stale-listing interleaving is exercised once, forced, by the twin",
                  "HubClient's own methods (process spawning, framing of Put + content) are assumed, not verified; split_target (host:root parsing) is not under contract",
                  "the `host:root` target over SSH is not exercised (the twin uses a local hub path)"],
+)
+
+
+# ---- C14: an unchanged tree is never re-sent (the per-file mtime chain) ----
+_C14_ONLY = [r"^(?!.*(mtime|clamp0|needs\()).*$"]
+PROPS["C14"] = dict(
+    level="proof",
+    units=[dict(template="units/oneway.rs", slice=["deliver_local", "deliver_pull", "lemma_delivered_is_skipped"],
+                ignore_clauses={"deliver_local": [r"delivery_log", r"delivered_or_untouched", r"same_except", r"is_staging", r"\.whole"], "deliver_pull": [r"delivery_log", r"delivered_or_untouched", r"same_except", r"is_staging", r"\.whole"]}),
+           dict(template="units/plan.rs", slice=["needs_transfer", "build_plan"], ignore_clauses={"build_plan": [r"with_delete", r"plan\.delete", r"sorted\("]})],
+    kani=[dict(harness="c19_needs_transfer_is_quick_check", repo_fn="src/bin/copia/plan.rs needs_transfer", desc="needs_transfer(src, dst) == (dst absent or size differs or whole-second mtime differs), all inputs")],
+    twins=[dict(name="second_run_noop", repo_fn="src/bin/copia/incremental.rs run_local/run_remote (second run)", quick=1, thorough=1, needs_cli=True,
+                contract="`copia sync -r` on the real binary in all three directions (ssh stand-in), source mtimes with a sub-second part, the epoch itself and a far-future value: after the first run every destination file has the source's whole-second mtime; the same command again exits 0, plans nothing, and changes no byte and no mtime on either side",
+                bounded="the two-run statement, the push direction (remote `touch -d @t`) and the remote listing (`find -printf %T@`) have no contract: this run stands in. Bound: one 5-file tree per direction, four mtime shapes")],
+    fallback_searches=["second_run"],
+    clauses={
+        "needs_transfer / build_plan (unit plan, Kani)": "a file is planned for transfer exactly when it is not excluded and is absent from the destination or differs in size or whole-second mtime (the property's second sentence; shared with C19)",
+        "deliver_local / deliver_pull": "Ok and no I/O fault ==> the delivered file's whole-second mtime is max(planned mtime, 0): set_local_mtime is called on dst AFTER the rename with the planned value",
+        "lemma_delivered_is_skipped": "a destination file with the source's bytes and the planned (non-negative) mtime is NOT selected by the quick check: the next run skips it",
+    },
+    trusted=ONEWAY_TRUST + [
+        "meta::set_local_mtime / mtime_secs BY CONTRACT: on success the whole-second mtime read back is max(secs, 0) (SystemTime/Duration arithmetic and the file-system's timestamp granularity are outside the verifier's reach)",
+        "discover_local_with_meta / discover_remote_with_meta by contract (size and whole-second mtime of each file)",
+    ],
+    assumptions=["no I/O fault while setting the mtime (its result is ignored by the code: `let _ =`)", "mtimes at or after the epoch"],
+    not_decided=["'immediately after a successful sync the same command transfers nothing' is a two-run statement over run_local/run_remote (tokio orchestration, not under contract): per file it follows from the three clauses above; end to end only the bounded twin",
+                 "push: the remote `touch -d @t` and `find -printf %T@` round trip is shell, not Rust: twin only"],
 )
